@@ -5,7 +5,7 @@ from __future__ import annotations
 from aiomysensors.model.message import Message
 
 from .. import bfs, core, refmodel as R
-from ..harness import Session, canon_gateway, canon_nodes
+from ..harness import Session, canon_gateway, canon_nodes, registry_view
 
 MOD = __name__
 
@@ -55,8 +55,6 @@ def single_alphabet(pair, cross: bool) -> list:
     for t in range(0, R.INTERNAL_MAX[old] + 1):
         if t == R.I_VERSION:
             continue  # a version report changes the pair under test (C05)
-        if t == R.I_HEARTBEAT_RESPONSE and straddles_22(pair):
-            continue
         if cross and t == R.I_GATEWAY_READY:
             continue
         for p in ("", "5", "x"):
@@ -99,6 +97,7 @@ class Monitor:
         self.a = Session(self.pair[0])
         self.b = Session(self.pair[1])
         self.model = R.RegistryModel()
+        self.parked_a: list[str] = []
         self.nontrivial = False
         self.last_desc = None
         self._alpha = single_alphabet(self.pair, self.cross) if cfg["mode"] == "single" else history_alphabet(self.pair, self.cross)
@@ -144,12 +143,32 @@ class Monitor:
         def bad(k, what):
             viols.append((f"C19|{k}|{tag}", f"{ev} under {self.pair}: {what}", None))
 
+        # the one stated exception: a heartbeat response marks the node sleeping and releases its parked
+        # commands in 2.0/2.1 but not in 2.2; everything else about its handling must still agree
+        hb_exception = ev[0] == "line" and ev[1][2] == 3 and ev[1][4] == R.I_HEARTBEAT_RESPONSE and straddles_22(self.pair)
         if outcome_sig(oa) != outcome_sig(ob):
             bad("outcome-differs", f"{self.pair[0]}: {oa.describe()} vs {self.pair[1]}: {ob.describe()}")
-        if sorted(oa.writes) != sorted(ob.writes):
+        wa, wb = sorted(oa.writes), sorted(ob.writes)
+        if hb_exception:
+            parked = sorted(self.parked_a)
+            wa = sorted(w for w in oa.writes if w not in parked or parked.remove(w))
+        if wa != wb:
             bad("writes-differ", f"{self.pair[0]} wrote {oa.writes}, {self.pair[1]} wrote {ob.writes}")
-        if canon_nodes(self.a.gateway.nodes) != canon_nodes(self.b.gateway.nodes):
+        if hb_exception:
+            ra, rb = registry_view(self.a.gateway.nodes), registry_view(self.b.gateway.nodes)
+            for r in (ra, rb):
+                for nd in r.values():
+                    nd.pop("sleeping", None)
+            if ra != rb:
+                bad("registry-differs", f"registries differ (sleeping flag ignored) after the step: {ra} vs {rb}")
+        elif canon_nodes(self.a.gateway.nodes) != canon_nodes(self.b.gateway.nodes):
             bad("registry-differs", f"registries differ after the step: {self.a.gateway.nodes!r} vs {self.b.gateway.nodes!r}")
+        # lines parked in the older gateway (for the heartbeat exception)
+        if ev[0] == "send" and oa.kind == "return" and not oa.writes:
+            self.parked_a.append(R.enc(*ev[1]))
+        for w in oa.writes:
+            if w in self.parked_a:
+                self.parked_a.remove(w)
         self.nontrivial = bool(oa.writes) or oa.kind == "raise"
         if ev[0] == "line" and ob.kind == "yield":
             f = tuple(ev[1])
@@ -185,6 +204,25 @@ def prefixes(pair, cross) -> list:
     return out
 
 
+def type_product_job(job):
+    """Every child type x value type of the older table: present the child, set, req; old vs new must agree."""
+    pair, ctypes = job
+    viols = []
+    n = 0
+    for ct in ctypes:
+        for vt in range(0, R.V_MAX[pair[0]] + 1):
+            n += 1
+            mon = Monitor({"pair": pair, "cross": False, "mode": "hist"})
+            hist = [["line", [1, 255, 0, 0, 17, "2.0"]], ["line", [1, 5, 0, 0, ct, "d"]], ["line", [1, 5, 1, 0, vt, "v"]], ["line", [1, 5, 2, 0, vt, ""]], ["send", [1, 5, 1, 0, vt, "s"], None]]
+            for i, ev in enumerate(hist):
+                v = mon.apply(ev)
+                for k, w, _x in v:
+                    viols.append((k.replace("|line|", "|typeproduct|").replace("|send|", "|typeproduct|"), f"child type {ct} value type {vt}: {w}", {"cfg": {"pair": pair, "cross": False, "mode": "hist"}, "history": hist[: i + 1], "extra": None}))
+                if v:
+                    break
+    return n, viols
+
+
 def run(ctx: core.Ctx) -> core.Report:
     depth = 4 if ctx.quick else 6
     cfgs_h = [{"pair": p, "cross": False, "mode": "hist"} for p in SAME_MAJOR]
@@ -198,22 +236,31 @@ def run(ctx: core.Ctx) -> core.Report:
         for pre in prefixes(p, True):
             cfgs_s.append({"pair": p, "cross": True, "mode": "single", "prefix": pre})
     sres = bfs.search_many(ctx, MOD, cfgs_s, 1)
+    tjobs = []
+    for p in SAME_MAJOR + CROSS_MAJOR:
+        cts = list(range(0, R.S_MAX[p[0]] + 1))
+        for i in range(0, len(cts), 5):
+            tjobs.append((p, cts[i : i + 5]))
+    tres = core.pmap(type_product_job, tjobs, ctx.workers, chunksize=1)
+    tviols = [core.Violation(k, w, rep) for r in tres for k, w, rep in r[1]]
+    tcount = sum(r[0] for r in tres)
     cov = {
         "states": res["states"] + sres["states"],
-        "transitions": res["transitions"] + sres["transitions"],
-        "traces_validated_against_impl": res["transitions"] + sres["transitions"],
+        "transitions": res["transitions"] + sres["transitions"] + 5 * tcount,
+        "traces_validated_against_impl": res["transitions"] + sres["transitions"] + 5 * tcount,
+        "type_product_cases": tcount,
         "exhaustive": False,
         "distinct_nontrivial_transitions": res["nontrivial_transitions"] + sres["nontrivial_transitions"],
-        "rule": "product of two real gateways (old, new) fed the same events; (a) every internal/stream type of the old table x payloads in base states (depth 1), (b) all histories to the stated depth; non-trivial = the step wrote something or raised",
+        "rule": "product of two real gateways (old, new) fed the same events; (a) every internal/stream type of the old table x payloads in base states (depth 1; the heartbeat response across 2.1->2.2 is compared with the sleeping flag and the release of parked commands masked), (b) all histories to the stated depth, (c) every child type x value type of the older table (present, set, req, send); non-trivial = the step wrote something or raised",
         "bounds": {"depth": depth, "pairs": SAME_MAJOR + CROSS_MAJOR, "single_step_cfgs": len(cfgs_s), "per_cfg": res["per_cfg"]},
         "samples": ctx.pick(res["samples"], 3),
     }
     return core.Report(
         level="model_checking",
         coverage=cov,
-        violations=res["violations"] + sres["violations"],
+        violations=res["violations"] + sres["violations"] + tviols,
         assumptions=[
-            "heartbeat response excluded for pairs that straddle 2.1 -> 2.2, as the statement says",
+            "heartbeat response across 2.1 -> 2.2: excluded from histories; in single steps compared modulo the stated exception (sleeping flag, release of parked commands)",
             "across major lines histories are restricted to known nodes/children and no gateway-ready",
             "version reports are excluded (they would change the pair under test; C05)",
             "writes compared as multisets per step",
